@@ -42,7 +42,7 @@ Proof.
   intros nu f n arr Hf Hn Harr.
   pose proof (field_ok_id _ _ Hf) as Hid.
   unfold pk_repeated, sz_repeated, pb_repeated.
-  rewrite (u32_small n) by lia.
+  rewrite ?(u32_small n) by lia.
   destruct (Z.eqb_spec n 0) as [-> | Hn0].
   { destruct (f_packed f); apply agree_nil. }
   destruct arr as [l|]; [|lia]. destruct Harr as (Hnl & W & HI).
@@ -78,11 +78,11 @@ Proof.
     rewrite Hassert.
     (* pack_to_buffer *)
     assert (Hlen : pb_payload_len f n l = Ok (zlen p)).
-    { unfold pb_payload_len. rewrite (u32_small n) by lia.
+    { unfold pb_payload_len.
       destruct (f_type f) eqn:Et; try discriminate Hs; try exact H3;
         rewrite (H9 _ eq_refl); f_equal; unfold u32; lia. }
     assert (Hpay : exists chunks, pb_payload f n l = Ok (chunks, zlen p) /\ concat chunks = p).
-    { unfold pb_payload. rewrite (u32_small n) by lia. rewrite H4. cbn [bind].
+    { unfold pb_payload. rewrite H4. cbn [bind].
       destruct (f_type f) eqn:Et; try discriminate Hs;
         try (exists cs; rewrite H5; split; reflexivity);
         try (exists [concat cs]; rewrite H5; split; [reflexivity | cbn [concat]; apply app_nil_r]).
